@@ -66,6 +66,7 @@ func (r *runner) shrinkAndWrite(prop string, leg *Leg, seed uint64, v viol, dead
 		return "", "re-run of the seed did not show the violation"
 	}
 	tape := o.res.Tape
+	recorded := append([]int32(nil), tape...)
 	orig := len(tape)
 	cn := 0
 	try := func(cands [][]int32) int {
@@ -186,25 +187,38 @@ func (r *runner) shrinkAndWrite(prop string, leg *Leg, seed uint64, v viol, dead
 			break
 		}
 	}
-	// verify 3 of 3 with identical event-log hash
-	f := writeTape(r.bo.Dir, 999999, tape)
-	defer os.Remove(f)
-	hash := ""
-	var last *runOut
-	for i := 0; i < 3; i++ {
-		oo := r.runOne(ctx, leg, seed, f, "VERIF_EMIT_TAPE=2", "VERIF_TRACE=1")
-		if oo.trouble != "" || !hasSig(oo, sig) {
-			return "", "minimised tape did not reproduce 3 of 3"
+	// verify 3 of 3 with identical event-log hash; if the minimised tape does not
+	// re-verify (a candidate that only just reproduced), fall back to the tape as
+	// recorded, which is verified the same way
+	verify := func(tp []int32) (*runOut, string, string) {
+		f := writeTape(r.bo.Dir, 999999, tp)
+		defer os.Remove(f)
+		hash := ""
+		var last *runOut
+		for i := 0; i < 3; i++ {
+			oo := r.runOne(ctx, leg, seed, f, "VERIF_EMIT_TAPE=2", "VERIF_TRACE=1")
+			if oo.trouble != "" || !hasSig(oo, sig) {
+				return nil, "", "tape did not reproduce 3 of 3"
+			}
+			h := ""
+			if oo.res != nil {
+				h = oo.res.LogHash
+			}
+			if i > 0 && h != hash {
+				return nil, "", "tape reproduced with differing event logs (nondeterminism)"
+			}
+			hash = h
+			last = oo
 		}
-		h := ""
-		if oo.res != nil {
-			h = oo.res.LogHash
-		}
-		if i > 0 && h != hash {
-			return "", "minimised tape reproduced with differing event logs (nondeterminism)"
-		}
-		hash = h
-		last = oo
+		return last, hash, ""
+	}
+	last, hash, why := verify(tape)
+	if why != "" && len(tape) != len(recorded) {
+		tape = recorded
+		last, hash, why = verify(tape)
+	}
+	if why != "" {
+		return "", why
 	}
 	var labels []string
 	trace := ""
